@@ -141,6 +141,36 @@ Theorem C11_source_shutdown_ends_delay :
 Proof. exact source_shutdown_ends_delay. Qed.
 Print Assumptions C11_source_shutdown_ends_delay.
 
+(* Both cancel arms of the retry-delay loop (handle_delay_between_attempts) end the wait: Shutdown(_) and OtherCancel
+   -- the request the dispatcher sends to a unit that reports a failed attempt after the run was cancelled, because the
+   unit's own shutdown request was consumed while its process was still being run, terminated or drained. No clock
+   moves, nothing is sent. Turning either arm into "ignore" falsifies it. *)
+Theorem C11_source_delay_cancel_arms :
+  forall d r, dwf d -> d_done d = false -> (r = ROtherCancel \/ exists q, r = RShutdown q) ->
+    interp_delay arm_table d r =
+    Some (Ok ({| d_ck := d_ck d; d_done := true; d_cancelled := true |}, [])).
+Proof. exact source_delay_cancel_arms. Qed.
+Print Assumptions C11_source_delay_cancel_arms.
+
+(* ... hence a unit that is waiting out a retry delay when the run is shut down leaves the delay at once and asks the
+   dispatcher whether the next attempt may start: nextest does not stay alive for the rest of the delay with nothing
+   running ("nextest then exits on its own as soon as every running unit has exited or been killed"). *)
+Theorem C11_source_delay_cancel_leaves_delay :
+  forall c s d r, l_ph s = LDelay d -> dwf d -> d_done d = false ->
+    (r = ROtherCancel \/ exists q, r = RShutdown q) ->
+    lstep_src pause_table arm_table c s (LU (Req r)) =
+    Some (Ok (with_lph s LAwaitRetry, [LRetryStarted (l_k s + 1)])).
+Proof. exact source_delay_cancel_leaves_delay. Qed.
+Print Assumptions C11_source_delay_cancel_leaves_delay.
+
+(* the same fact of the model (whatever the pause table) *)
+Theorem C11_delay_cancel_ends_wait :
+  forall tbl c s d r, l_ph s = LDelay d -> d_done d = false ->
+    (r = ROtherCancel \/ exists q, r = RShutdown q) ->
+    lstep tbl c s (LU (Req r)) = Ok (with_lph s LAwaitRetry, [LRetryStarted (l_k s + 1)]).
+Proof. exact model_delay_cancel_leaves_delay. Qed.
+Print Assumptions C11_delay_cancel_ends_wait.
+
 (* == block C12 == *)
 (* An information request: exactly one response, tagged with the loop the unit is in (running,
    terminating, exiting), nothing else -- no signal, no change of state. *)
